@@ -159,6 +159,9 @@ def reflect_api():
 KNOWN_SITES = {}
 
 
+T1_FOREIGN = {("set", "none-field"), ("set", "nested-key"), ("set", "nontensor")}
+
+
 def behaviour(run, drv, kinds, meta):
     import torch  # noqa: F401
     from tensordict import TensorDictBase
@@ -171,12 +174,25 @@ def behaviour(run, drv, kinds, meta):
     clear_meta = set(meta["lists"]["_CLEAR_METADATA"])
     classmethods = set(meta["refl"]["tdClassmethods"])
     scratch = tempfile.mkdtemp(prefix="c15_", dir=str(BUILD))
-    full = ["D1", "S1"] if run.tier == "quick" else list(Z.BEHAVIOUR_CLASSES)
-    sampled = [c for c in Z.BEHAVIOUR_CLASSES if c not in full]
+    # T1 (tensor-only fields) is run on a curated name list only: the argument candidates are written for the x/n/s/o/d fields
+    general = [c for c in Z.BEHAVIOUR_CLASSES if c != "T1"]
+    full = ["D1", "S1"] if run.tier == "quick" else general
+    sampled = [c for c in general if c not in full]
     plan = [(c, n, op, "dense") for c in full for n, op in api]
     for c in sampled:
         sub = run.rng.sample(api, 60)
         plan += [(c, n, op, "dense") for n, op in sub]
+    # the members that need tensor-only fields of one shape to succeed on the tensordict side: always on T1
+    # (+ members whose tensordict-side result is `None` when no leaf qualifies: grad / data / zero_grad / requires_grad_ / detach)
+    t1_names = {"cat_from_tensordict", "stack_from_tensordict", "cat_tensors", "stack_tensors", "to_struct_array",
+                "grad", "data", "zero_grad", "requires_grad_", "detach", "detach_", "clone", "to_dict", "to_tensordict", "values", "items",
+                "sum", "mean", "exp", "__add__", "__neg__", "reshape", "view", "flatten", "unbind", "split", "chunk", "numel", "numpy"}
+    if run.tier == "thorough" or os.environ.get("VERIF_C15_T1_FULL"):
+        # every member except the constructors whose candidates name D1's fields (`s`, `n`): those keys are foreign to T1
+        t1_names = {n for n, _ in api} - {"from_dataclass", "from_dict", "from_dict_instance", "from_namedtuple", "fromkeys"}
+    plan += [("T1", n, op, "dense") for n, op in api if n in t1_names]
+    if os.environ.get("VERIF_C15_T1_FULL"):      # exploration only
+        plan += [("T1", n, op, "lazy") for n, op in api if n in t1_names]
     # lazily stacked receivers (a tensorclass around a LazyStackedTensorDict)
     lazy_names = api if run.tier == "thorough" else run.rng.sample(api, 110)
     for c in (["D1", "S1"] if run.tier == "thorough" else ["D1"]):
@@ -186,6 +202,9 @@ def behaviour(run, drv, kinds, meta):
     try:
         for clsname, name, is_op, recv in plan:
             mk = (lambda c, fl: Z.make_lazy(c, flavour=fl)) if recv == "lazy" else (lambda c, fl: Z.make(c, flavour=fl))
+            if os.environ.get("VERIF_C15_BATCH") is not None and recv == "dense":     # exploration only: other receiver batch shapes
+                _b = tuple(int(t) for t in os.environ["VERIF_C15_BATCH"].split(",") if t)
+                mk = lambda c, fl, _b=_b: Z.make(c, batch=_b, flavour=fl)  # noqa: E731
             if name in G.SKIP_BEHAVIOUR:
                 run.count("behaviour.skipped", G.SKIP_BEHAVIOUR[name])
                 continue
@@ -197,6 +216,9 @@ def behaviour(run, drv, kinds, meta):
                 kind = kinds.get((base, name), "missing")
             styles = [False, True] if (name in classmethods and recv == "dense") else [False]
             for cand in G.candidates(name):
+              if clsname == "T1" and (name, cand.label) in T1_FOREIGN:
+                  run.count("behaviour.t1_candidate_names_foreign_field", name)   # writes `o` / `n` / `s`: undeclared on T1 (set_undeclared_rejects)
+                  continue
               for on_class in styles:
                 ctx = B.Ctx(cls, scratch, cand.flavour)
                 try:
